@@ -12,6 +12,7 @@ CONSTANTS
     MaxQ = 2
     InsertFirst = FALSE
     WithHold = TRUE
+    EmptyOn = 0
     Hist = FALSE
 INVARIANT Inv
 CHECK_DEADLOCK FALSE
